@@ -17,12 +17,12 @@ import numpy as np
 
 from harness import common, pipecheck, project, tlc
 
-INVS = ["InvWellFormed", "InvIO", "InvOthersKept", "InvOutputRewired", "InvCount"]
+INVS = ["InvWellFormed", "InvIO", "InvOthersKept", "InvOutputRewired", "InvCount", "InvOutcome"]
 CODE = {"UNK": "ABS", "FC": "FULLY_CONNECTED"}
 D = 8       # feature size: activations [1, 2, D], weights [D, D], block size 4
 
 
-def build(cfg, seed):
+def build(cfg, seed, rank=3):
   """Float flatbuffer of the chain, tensors in the specification's order and with its names."""
   from ai_edge_litert import schema_py_generated as S
   from tensorflow.lite.tools import flatbuffer_utils
@@ -63,22 +63,23 @@ def build(cfg, seed):
     sg.tensors.append(t)
     return len(sg.tensors) - 1
 
-  prev = tensor("x", [1, 2, D])
+  act_shape = [1, 2, D] if rank == 3 else [2, D]
+  prev = tensor("x", act_shape)
   for i, s in enumerate(cfg, start=1):
     op = S.OperatorT()
     if s["kind"] == "UNK":
-      out = tensor("u%d" % i, [1, 2, D])
+      out = tensor("u%d" % i, act_shape)
       op.opcodeIndex = opcode(S.BuiltinOperator.ABS)
       op.inputs, op.outputs = [prev], [out]
     else:
       w = tensor("w%d" % i, [D, D], rng.integers(-32, 33, size=(D, D)) / 16.0)
       b = tensor("b%d" % i, [D], rng.integers(-16, 17, size=(D,)) / 8.0) if s["bias"] else -1
-      out = tensor("y%d" % i, [1, 2, D])
+      out = tensor("y%d" % i, act_shape)
       op.opcodeIndex = opcode(S.BuiltinOperator.FULLY_CONNECTED)
       op.inputs, op.outputs = [prev, w, b], [out]
       o = S.FullyConnectedOptionsT()
       o.keepNumDims = True
-      o.fusedActivationFunction = S.ActivationFunctionType.RELU if s["relu"] else S.ActivationFunctionType.NONE
+      o.fusedActivationFunction = {"none": S.ActivationFunctionType.NONE, "relu": S.ActivationFunctionType.RELU, "relu6": S.ActivationFunctionType.RELU6}[s["relu"]]
       op.builtinOptionsType = S.BuiltinOptions.FullyConnectedOptions
       op.builtinOptions = o
     sg.operators.append(op)
@@ -110,7 +111,7 @@ def run(chk, args):
   """Adds the block-wise part to check C01; returns a coverage dict."""
   from ai_edge_quantizer import qtyping as Q, quantizer
   maxfc = 2 if args.tier == "quick" else 3
-  r = tlc.run("C01_subchannel", "Subchannel", dict(MaxFC=str(maxfc), Bugs="{}"), invariants=INVS, constraints=["Emit"], workers=8, timeout=3600)
+  r = tlc.run("C01_subchannel", "Subchannel", dict(MaxFC=str(maxfc), Bugs="{}", Acts='{"none", "relu", "relu6"}', Ranks="{2, 3}"), invariants=INVS, constraints=["Emit"], workers=8, timeout=3600)
   if r.error or r.rc not in (0, 12):
     chk.machinery("TLC failed on Subchannel.tla: %s" % r.out[-600:])
     return {}
@@ -118,8 +119,10 @@ def run(chk, args):
     chk.violation("design-level: %s violated in Subchannel.tla" % r.violated, {"property": "C01", "clause": "subchannel-design", "tlc": r.out[-2000:]})
   dumps = {}
   for d in r.json_dumps("DUMP"):
-    dumps.setdefault(json.dumps(d["cfg"], sort_keys=True), d)
-  keys = common.sample_keep(sorted(dumps), 120 if args.tier == "quick" else 2000, args.seed)
+    dumps.setdefault(json.dumps([d["cfg"], d["rank"]], sort_keys=True), d)
+  quick = args.tier == "quick"
+  keys = (common.sample_keep(sorted(k for k in dumps if dumps[k]["pc"] == "done"), 120 if quick else 3000, args.seed) +
+          common.sample_keep(sorted(k for k in dumps if dumps[k]["pc"] != "done"), 50 if quick else 1200, args.seed))
   blk = Q.OpQuantizationConfig(weight_tensor_config=Q.TensorQuantizationConfig(num_bits=8, symmetric=True, granularity=Q.QuantGranularity.BLOCKWISE, block_size=4),
                                compute_precision=Q.ComputePrecision.FLOAT, explicit_dequantize=True, skip_checks=True)
   obs, meta = [], []
@@ -128,20 +131,24 @@ def run(chk, args):
   for n, k in enumerate(keys):
     d = dumps[k]
     cfg = d["cfg"]
-    model = build(cfg, args.seed + n)
+    model = build(cfg, args.seed + n, d["rank"])
     q = quantizer.Quantizer(model)
     for i, s in enumerate(cfg, start=1):
       if s["kind"] == "FC" and s["blk"]:
         q.update_quantization_recipe("y%d;" % i, Q.TFLOperationName.FULLY_CONNECTED, blk)
-    rep = {"property": "C01", "clause": "subchannel", "chain": cfg, "seed": args.seed + n}
+    rep = {"property": "C01", "clause": "subchannel", "chain": cfg, "rank": d["rank"], "seed": args.seed + n}
     try:
       out = bytes(q.quantize().quantized_model)
     except Exception as e:  # pylint: disable=broad-except
       outcomes["raised %s" % type(e).__name__] = outcomes.get("raised %s" % type(e).__name__, 0) + 1
-      chk.note("spec-drift block-wise chain %s: quantize() raised %s: %s (the specification predicts a returned model)" % (k[:80], type(e).__name__, str(e)[:120]))
+      why = "fused_activation" if "fusedActivationFunction" in str(e) else "rank" if "3D input" in str(e) else "other"
+      if isinstance(e, ValueError) and d["pc"] == why:
+        continue                # refused where, and for the reason, the specification predicts
+      chk.note("spec-drift block-wise chain %s: quantize() raised %s: %s (the specification predicts %s)" % (k[:80], type(e).__name__, str(e)[:120], d["pc"]))
       ndrift += 1
       continue
     outcomes["returned"] = outcomes.get("returned", 0) + 1
+    predicted_refusal = d["pc"] != "done"
     try:
       proj = project.project(out)
     except Exception as e:  # pylint: disable=broad-except
@@ -156,6 +163,10 @@ def run(chk, args):
       if res != "ok":
         chk.violation("interpreter: %s on the block-wise rewritten chain" % res[:200], dict(rep, what="interpreter", result=res))
     # prediction (drift only)
+    if predicted_refusal:
+      ndrift += 1
+      chk.note("spec-drift block-wise chain %s: a model is returned, the specification predicts a refusal (%s)" % (k[:80], d["pc"]))
+      continue
     want = d["g"]
     wops = [{"code": CODE.get(o["code"], o["code"]), "ins": o["ins"], "outs": o["outs"]} for o in want["ops"]]
     diffs = []
